@@ -304,13 +304,21 @@ func genBoundary(r *vh.Rng, base int64) any {
 		return narrow(base+d, r)
 	case 5:
 		f := float64(base)
-		switch r.Intn(4) {
+		switch r.Intn(8) {
 		case 0:
 			return math.Nextafter(f, math.Inf(1))
 		case 1:
 			return math.Nextafter(f, math.Inf(-1))
 		case 2:
 			return f + float64(d)/2
+		case 3:
+			return float32(f) // a float32 beside float64 neighbours: the widening is exact, the float64 values around it differ
+		case 4:
+			return float64(float32(f))
+		case 5:
+			return math.Nextafter(float64(float32(f)), math.Inf(1))
+		case 6:
+			return math.Nextafter(float64(float32(f)), math.Inf(-1))
 		}
 		return f
 	case 6:
@@ -326,6 +334,51 @@ func genBoundary(r *vh.Rng, base int64) any {
 	default:
 		return genNum(r)
 	}
+}
+
+// a number and one of the float64 / float32 values closest to it: a random integer against the float64
+// it rounds to and that float's neighbours; a random float32 against the float64 of the same value and
+// its neighbours (which a comparison in float32 cannot tell apart); a random float64 against its
+// integer part
+func genNeighbours(r *vh.Rng) (any, any) {
+	near := func(f float64) float64 {
+		switch r.Intn(3) {
+		case 0:
+			return math.Nextafter(f, math.Inf(1))
+		case 1:
+			return math.Nextafter(f, math.Inf(-1))
+		}
+		return f
+	}
+	var a, b any
+	switch r.Intn(5) {
+	case 0:
+		i := int64(r.U64() >> uint(r.Intn(64)))
+		if r.Bool() {
+			i = -i
+		}
+		a, b = i, near(float64(i))
+	case 1:
+		u := r.U64() >> uint(r.Intn(64))
+		a, b = u, near(float64(u))
+	case 2:
+		x := math.Float32frombits(uint32(r.U64()))
+		if x != x {
+			x = 0.1
+		}
+		a, b = x, near(float64(x))
+	case 3:
+		f := math.Float64frombits(r.U64()>>2 | uint64(r.Intn(2))<<63) // |f| < 2: fractions
+		f *= float64(int64(1) << uint(r.Intn(40)))
+		a, b = f, narrow(int64(f), r)
+	default:
+		i := int64(r.U64() >> uint(1+r.Intn(63)))
+		a, b = narrow(i, r), narrow(i+int64(r.Intn(3))-1, r)
+	}
+	if r.Bool() {
+		a, b = b, a
+	}
+	return a, b
 }
 
 func genScalar(r *vh.Rng) any {
@@ -996,7 +1049,10 @@ func (w *world) search(o *vh.Out, r *vh.Rng, rq request) {
 	}
 	line := fmt.Sprintf("search tree=%s select=%s sort=%s off=%d lim=%d variant=%s pick=%s req=%s", rq.tree.leafStr, selStr, sortStr, rq.off, rq.lim, w.variant, pickStr, base64.StdEncoding.EncodeToString(reqJSON))
 	replay := func() string { return "new\n" + strings.Join(w.hist, "\n") + "\n" + line }
-	fail := func(sig, what string) { o.Fail(sig, what+" | request "+string(reqJSON), replay()) }
+	fail := func(sig, what string) {
+		o.Stats["failed-search:"+sig]++
+		o.Fail(sig, what+" | request "+string(reqJSON), replay())
+	}
 	specSet := rq.tree.specSet()
 	kind := "search-" + rq.tree.kind
 	if len(rq.sorts) > 0 {
@@ -1340,12 +1396,15 @@ func pureLines(o *vh.Out, r *vh.Rng, n int) {
 		}
 		o.Emit("fadd", "fadd "+bits(a)+" "+bits(b), bits(a+b), true)
 	}
-	for i := 0; i < 3*n; i++ {
+	for i := 0; i < 4*n; i++ {
 		a, b := genScalar(r), genScalar(r)
 		if i >= n {
 			// two values around the same base: neighbours, the same value in another width, floats beside integers
 			base := vh.Pick(r, bigBases)
 			a, b = genBoundary(r, base), genBoundary(r, base)
+		}
+		if i >= 2*n {
+			a, b = genNeighbours(r)
 		}
 		if r.Chance(20) {
 			b = a
